@@ -1,5 +1,174 @@
+/-
+  C19 — the merge table written by `train_bpe` is what greedy training produces and is well-formed.
+  Model: `Tu.greedyTable` (Model/BpeTrain.lean), replayed on the table the code wrote.  Every entry
+  is the concatenation of an adjacent pair of positive, maximal frequency in the corpus as
+  segmented by the earlier merges; ids are `0..m-1`, `m ≤ n`; training stops early only when no
+  pair occurs any more; the table satisfies `wfTable`, the hypothesis of the C02–C04 theorems.
+-/
 import TuModel.Model.BpeTrain
+import TuModel.Lemmas.BpeTrainL
 namespace Tu.C19
 open Tu
-theorem placeholder_replay_nil (c : Corpus) : greedyReplay c [] = [c] := by simp [greedyReplay]
+
+/-- merging a pair only regroups the bytes of a word -/
+theorem replacePairInWord_flatten (w : List (List Nat)) (x y : List Nat) :
+    (replacePairInWord w x y).flatten = w.flatten := by
+  unfold replacePairInWord
+  rw [BpeTrainL.replacePairAux_flatten]
+  simp
+
+/-- every replayed entry is the concatenation of an adjacent token pair that occurs, with positive
+and maximal frequency, in the corpus as segmented by the earlier merges -/
+theorem greedyReplay_head (c : Corpus) (e : List Nat) (es : List (List Nat)) (c' : Corpus)
+    (h : c' ∈ greedyReplay c (e :: es)) :
+    ∃ p, p ∈ allPairs c ∧ p.1 ++ p.2 = e ∧ 0 < pairFreq c p ∧ (∀ q ∈ allPairs c, pairFreq c q ≤ pairFreq c p) ∧
+      c' ∈ greedyReplay (applyMerge c p) es :=
+  BpeTrainL.greedyReplay_head c e es c' h
+
+/-- a pair listed in `allPairs` really is adjacent in some word, and pairs that are not adjacent
+anywhere have frequency 0: the table never contains an entry for a pair that does not occur -/
+theorem pairFreq_pos_mem (c : Corpus) (p : List Nat × List Nat) (h : 0 < pairFreq c p) : p ∈ allPairs c :=
+  BpeTrainL.pairFreq_pos_mem c p h
+
+theorem mem_allPairs (c : Corpus) (p : List Nat × List Nat) :
+    p ∈ allPairs c ↔ ∃ w n, (w, n) ∈ c ∧ p ∈ wordPairs w :=
+  BpeTrainL.mem_allPairs c p
+
+/-- what `greedyTable` checks, as propositions -/
+theorem greedyTable_unfold (words : List (List Nat × Nat)) (n : Nat) (t : MTable)
+    (h : greedyTable words n t = true) :
+    ∃ es, entriesInOrder t = some es ∧ t.length ≤ n ∧ es.Nodup ∧
+      ∃ c, c ∈ greedyReplay (initCorpus words) es ∧ (es.length = n ∨ maxPairFreq c = 0) := by
+  unfold greedyTable at h
+  cases he : entriesInOrder t with
+  | none => rw [he] at h; simp at h
+  | some es =>
+    rw [he] at h
+    simp only [Bool.and_eq_true, decide_eq_true_eq, List.any_eq_true, Bool.or_eq_true, beq_iff_eq] at h
+    obtain ⟨⟨h1, h2⟩, c, hc, h3⟩ := h
+    exact ⟨es, rfl, h1, h2, c, hc, h3⟩
+
+/-- ids are exactly 0..m-1 and at most the requested number of merges -/
+theorem greedyTable_ids (words : List (List Nat × Nat)) (n : Nat) (t : MTable) (h : greedyTable words n t = true) :
+    t.length ≤ n ∧ ∀ k, k < t.length → (tbytes t k).isSome = true := by
+  obtain ⟨es, he, hn, _, _⟩ := greedyTable_unfold words n t h
+  refine ⟨hn, ?_⟩
+  intro k hk
+  obtain ⟨hlen, hb⟩ := BpeTrainL.entriesInOrder_spec t es he
+  rw [hb k hk, List.getElem?_eq_getElem (by omega)]
+  rfl
+
+/-- each id `k < m` is the id of exactly one entry, and no other ids occur -/
+theorem greedyTable_ids_exact (words : List (List Nat × Nat)) (n : Nat) (t : MTable) (h : greedyTable words n t = true) :
+    (∀ k, k < t.length → (t.filter (fun e => e.2 == k)).length = 1) ∧ ∀ e ∈ t, e.2 < t.length := by
+  obtain ⟨es, he, _⟩ := greedyTable_unfold words n t h
+  exact ⟨BpeTrainL.table_ids_once t es he, BpeTrainL.table_id_lt t es he⟩
+
+/-- training stops early only when the corpus is exhausted -/
+theorem greedyTable_stops (words : List (List Nat × Nat)) (n : Nat) (t : MTable) (h : greedyTable words n t = true) :
+    t.length = n ∨ ∃ es c, entriesInOrder t = some es ∧ c ∈ greedyReplay (initCorpus words) es ∧ maxPairFreq c = 0 := by
+  obtain ⟨es, he, _, _, c, hc, h3⟩ := greedyTable_unfold words n t h
+  obtain ⟨hlen, _⟩ := BpeTrainL.entriesInOrder_spec t es he
+  rcases h3 with h3 | h3
+  · left; omega
+  · right; exact ⟨es, c, he, hc, h3⟩
+
+/-- every entry of a trained table, spelled out: entry `k` is `l ++ r` for two tokens that are single
+bytes or entries with smaller ids -/
+theorem greedyTable_entry (words : List (List Nat × Nat)) (n : Nat) (t : MTable)
+    (hb : ∀ w ∈ words, ∀ b ∈ w.1, b < 256) (h : greedyTable words n t = true) :
+    ∀ e ∈ t, (∀ b ∈ e.1, b < 256) ∧ ∃ l r, l ++ r = e.1 ∧ l ≠ [] ∧ r ≠ [] ∧
+      isTokenBefore t e.2 l = true ∧ isTokenBefore t e.2 r = true := by
+  obtain ⟨es, he, _, hnd, c, hc, _⟩ := greedyTable_unfold words n t h
+  obtain ⟨hlen, _⟩ := BpeTrainL.entriesInOrder_spec t es he
+  intro e hem
+  have hlt := BpeTrainL.table_id_lt t es he e hem
+  have hent := BpeTrainL.table_entry t es he e hem
+  obtain ⟨hk1, hk2⟩ := List.getElem?_eq_some_iff.mp hent
+  obtain ⟨l, r, hlr, gl, gr, al, ar⟩ :=
+    BpeTrainL.replay_inv es (initCorpus words) [] c (BpeTrainL.initCorpus_inv words hb) hc e.2 hk1
+  rw [hk2] at hlr
+  have key : ∀ tok, BpeTrainL.Good ([] ++ es.take e.2) tok → BpeTrainL.AllB tok → isTokenBefore t e.2 tok = true := by
+    intro tok g a
+    rcases g with ⟨b, hb256, rfl⟩ | g
+    · simp [isTokenBefore, hb256]
+    · rw [List.nil_append] at g
+      obtain ⟨j, hj⟩ := List.getElem?_of_mem g
+      have hjlt : j < e.2 := by
+        have := (List.getElem?_eq_some_iff.mp hj).1
+        rw [List.length_take] at this
+        omega
+      rw [List.getElem?_take_of_lt hjlt] at hj
+      have hlook := BpeTrainL.table_tlookup t es he hnd j tok hj
+      unfold isTokenBefore
+      split
+      · rename_i x
+        exact decide_eq_true (a.2 x (by simp))
+      · rw [hlook]; exact decide_eq_true hjlt
+  refine ⟨?_, l, r, hlr, al.1, ar.1, key l gl al, key r gr ar⟩
+  rw [← hlr]
+  exact (al.append ar).2
+
+/-- **the written table is well-formed** (so a tokenizer built from it satisfies the C02–C04 theorems) -/
+theorem train_WF (words : List (List Nat × Nat)) (n : Nat) (t : MTable) (hb : ∀ w ∈ words, ∀ b ∈ w.1, b < 256)
+    (h : greedyTable words n t = true) : wfTable t = true := by
+  obtain ⟨es, he, _, hnd, c, hc, _⟩ := greedyTable_unfold words n t h
+  obtain ⟨hlen, _⟩ := BpeTrainL.entriesInOrder_spec t es he
+  have honce := BpeTrainL.table_ids_once t es he
+  unfold wfTable
+  rw [Bool.and_eq_true, Bool.and_eq_true]
+  refine ⟨⟨?_, ?_⟩, ?_⟩
+  · -- (1) ids
+    rw [List.all_eq_true]
+    intro k hk
+    rw [List.mem_range] at hk
+    rw [honce k hk]; rfl
+  · -- (2) keys distinct
+    rw [List.all_eq_true]
+    intro e hem
+    have hlt := BpeTrainL.table_id_lt t es he e hem
+    have hent := BpeTrainL.table_entry t es he e hem
+    have : t.filter (fun e' => e'.1 == e.1) = t.filter (fun e' => e'.2 == e.2) := by
+      apply List.filter_congr
+      intro e' hem'
+      have hent' := BpeTrainL.table_entry t es he e' hem'
+      by_cases hk : e'.2 = e.2
+      · have : e' = e := BpeTrainL.table_ids_unique t es he e' hem' e hem hk
+        simp [this]
+      · have h1 : (e'.2 == e.2) = false := by simpa using hk
+        rw [h1]
+        by_cases hb' : e'.1 = e.1
+        · rw [hb'] at hent'
+          exact absurd (BpeTrainL.nodup_getElem?_inj hnd hent' hent) hk
+        · simpa using hb'
+    rw [this, honce e.2 hlt]; rfl
+  · -- (3) entries are concatenations of earlier tokens
+    rw [List.all_eq_true]
+    intro e hem
+    obtain ⟨hbytes, l, r, hlr, hl, hr, tl, tr⟩ := greedyTable_entry words n t hb h e hem
+    rw [Bool.and_eq_true]
+    constructor
+    · rw [List.all_eq_true]
+      intro b hbm
+      exact decide_eq_true (hbytes b hbm)
+    · rw [List.any_eq_true]
+      refine ⟨(l, r), ?_, ?_⟩
+      · rw [← hlr]; exact BpeTrainL.mem_splitsOf l r hl hr
+      · simp only [tl, tr, Bool.and_self]
+
+/-! ### non-vacuity -/
+
+example : greedyTable [([97,98],2),([32,97,98],1)] 4 [([97,98],0),([32,97,98],1)] = true := by decide
+example : greedyTable [([97,98],2),([32,97,98],1)] 1 [([97,98],0)] = true := by decide
+/-- the second merge must be the (only) remaining pair -/
+example : greedyTable [([97,98],2),([32,97,98],1)] 4 [([97,98],0),([32,97],1)] = false := by decide
+/-- stopping early while a pair still occurs is rejected -/
+example : greedyTable [([97,98],2),([32,97,98],1)] 4 [([97,98],0)] = false := by decide
+example : wfTable [([97,98],0),([32,97,98],1)] = true := by decide
+example : replacePairInWord [[97],[98],[97],[98],[99]] [97] [98] = [[97,98],[97,98],[99]] := by decide
+example : [[97,98],[32,97,98]] ∈ (greedyReplay (initCorpus [([97,98],2),([32,97,98],1)]) [[97,98],[32,97,98]]).map (fun c => c.map (·.1.flatten)) := by decide
+/-- the hypotheses of `train_WF` are satisfiable -/
+example : wfTable [([97,98],0),([32,97,98],1)] = true :=
+  train_WF [([97,98],2),([32,97,98],1)] 4 _ (by decide) (by decide)
+
 end Tu.C19
